@@ -63,6 +63,16 @@ CHECKS = {
             "TLC enumerates candidate sets from a 16-signature pool x argument tuples, predicts Unique(tag)/AmbiguousOverload/NoOverload and checks on the model invariance under alpha-renaming, non-matching additions and scope level; every case is compiled and run in 3 variants (declaration order, renamed generics/variables, extra non-matching overload, candidates split over enclosing scope) and the tag returned by the body that ran must be the predicted one.",
             "Candidate pool and argument tuples are fixed small universes (sets of <= 2 candidates quick, <= 3 thorough); stdlib-name collisions and dynamic lookup are hand-written templates.",
             "DESIGN.md 6 C05"),
+    "C15": ("model_checking",
+            "TLA+ list semantics of Sequence (XrSeq pool machine) walked by TLC -simulate; behaviours replayed",
+            "TLC random-walks the XrSeq machine: each step applies one sequence operation to earlier bindings (so every composition of lazy representations arises) with indices at the interesting places, and records the result by plain list semantics; the interpreter must reproduce every binding, and all operands are read back at the end (persistence).",
+            "Simulation (sampled) rather than exhaustive; infinite sequences compared on a prefix; operations left open by the documentation are not generated; representation invariants of the variant tree are not yet checked.",
+            "DESIGN.md 6 C15"),
+    "C16": ("model_checking",
+            "TLA+ stream semantics of Generator (XrGen pool machine) walked by TLC -simulate; behaviours replayed, each generator consumed twice",
+            "TLC random-walks the XrGen machine over generator operations on finite and infinite sources and records every stream; every generator is consumed twice (re-iterability) and finite consumptions of infinite pipelines must terminate (laziness).",
+            "Evaluated-prefix bounds are observed as termination, not as exact pull counts; simulation is sampled.",
+            "DESIGN.md 6 C16"),
 }
 
 NOT_YET = {}
